@@ -150,8 +150,11 @@ def record_ls(sc):
     th_star = np.array(sc["th_star"], dtype=float)
     D = len(th_star)
     if sc["kind"] == "ls":
-        vd = np.zeros(D)
-        vd[sc["axis"]] = float(sc["sign"])
+        if "vd" in sc:
+            vd = np.array(sc["vd"], dtype=float)
+        else:
+            vd = np.zeros(D)
+            vd[sc["axis"]] = float(sc["sign"])
         obj = LsObjective(th_star, unit, lo, sc["below"], [vd])
         try:
             with time_limit(10), quiet():
@@ -212,8 +215,16 @@ def ls_scenarios(ctx):
                 preds.append(pr)
             for pr in preds:
                 D = rnd.choice([1, 2, 3])
-                out.append(dict(kind="ls", K=K, replim=replim, eta=rnd.choice([0.5, 1.0, 2.0, 0.25]), lo=lo, below=[pr],
-                                th_star=[rnd.randint(-8, 8) / 4.0 for _k in range(D)], axis=rnd.randrange(D), sign=rnd.choice([1, -1])))
+                if rnd.random() < 0.5:
+                    # dyadic step, start and axis direction: every float operation of the loop is exact
+                    out.append(dict(kind="ls", K=K, replim=replim, eta=rnd.choice([0.5, 1.0, 2.0, 0.25]), lo=lo, below=[pr],
+                                    th_star=[rnd.randint(-8, 8) / 4.0 for _k in range(D)], axis=rnd.randrange(D), sign=rnd.choice([1, -1])))
+                else:
+                    # arbitrary step, start and direction (not normalised): positions are recovered by projection on the
+                    # direction and rounding to 1/1024 unit, which absorbs the accumulated rounding (~1e-13 unit)
+                    vd = [rnd.choice([-2.0, -0.8, -0.6, 0.3, 0.6, 0.8, 1.0, 1.7]) for _k in range(D)]
+                    out.append(dict(kind="ls", K=K, replim=replim, eta=rnd.choice([0.1, 0.3, 0.7, 1.7, 1.0]), lo=lo, below=[pr],
+                                    th_star=[rnd.randint(-3000, 3000) / 1000.0 for _k in range(D)], vd=vd))
     n_ls = len(out)
     # RegionConstructor.build: 2*D searches from one start; all predicates agree at the start
     n_build = 40 if ctx.quick else 300
@@ -255,7 +266,7 @@ def check_ls(ctx, scs):
     verdicts = ctx.validate("LineSearch_Trace", traces, chunk=max(100, -(-len(traces) // 8)), name="ls")
     for sc, tr, v in zip(scs, traces, verdicts):
         nprobe = sum(1 for e in tr["events"] if e["ev"] == "probe")
-        ctx.case(("ls", sc["kind"], sc["K"], sc["replim"], tlc_digest(sc["below"]), sc.get("axis"), sc.get("sign")), nontrivial=nprobe >= 3)
+        ctx.case(("ls", sc["kind"], sc["K"], sc["replim"], tlc_digest([sc["below"], sc.get("vd"), sc["eta"]]), sc.get("axis"), sc.get("sign")), nontrivial=nprobe >= 3)
         ctx.trace_events += len(tr["events"])
         if v["verdict"] != "ok":
             fid = F_LS_REPLIM0 if is_replim0_finding(sc, v["verdict"]) else None
@@ -816,7 +827,7 @@ def run(ctx):
     ]
     ctx.trusted_base += ["numpy matmul for the harness's forward/inverse maps with random orthonormal rotations",
                          "decimal projection of floats to 7 significant digits (relative tolerance 2e-6 in TLC)"]
-    ctx.assumptions += ["objective callables are functions of the point (same value when probed twice)",
+    ctx.assumptions += ["objective callables are functions of the point (same value when probed twice)", "the step size eta is positive",
                         "the start of a line search is below the threshold (ROMC only searches from accepted optima); otherwise only positivity is claimed"]
     design_runs(ctx)
     ls_scs, n_ls = ls_scenarios(ctx)
